@@ -15,7 +15,23 @@ fn build_config(v: &Value) -> BuildConfig {
     } else {
         BuildConfig::new(string_of(&v["builder"]), PathBuf::from(string_of(&v["app_dir"])))
     };
-    c.buildpacks(v["buildpacks"].as_array().unwrap().iter().map(|b| BuildpackReference::Other(string_of(b))).collect::<Vec<_>>());
+    // a reference is bytes (BuildpackReference::Other), {"ws": id} (a buildpack of the Cargo workspace) or {"current": true}
+    c.buildpacks(
+        v["buildpacks"]
+            .as_array()
+            .unwrap()
+            .iter()
+            .map(|b| {
+                if let Some(id) = b.get("ws") {
+                    BuildpackReference::WorkspaceBuildpack(string_of(id).parse().unwrap())
+                } else if b.get("current").is_some() {
+                    BuildpackReference::CurrentCrate
+                } else {
+                    BuildpackReference::Other(string_of(b))
+                }
+            })
+            .collect::<Vec<_>>(),
+    );
     for kv in v["env"].as_array().unwrap() {
         c.env(string_of(&kv[0]), string_of(&kv[1]));
     }
@@ -52,6 +68,10 @@ fn build_config(v: &Value) -> BuildConfig {
         }
         Some("panic") => {
             c.app_dir_preprocessor(|_| panic!("injected preprocessor panic"));
+        }
+        // one argument above MAX_ARG_STRLEN: the pack executable cannot be started (E2BIG)
+        Some("nospawn") => {
+            c.env("BIG", "x".repeat(200_000));
         }
         _ => {}
     }
@@ -143,6 +163,10 @@ pub fn child() {
     let r = std::panic::catch_unwind(|| {
         TestRunner::default().build(build_config(&case["build"]), |ctx| run_body(ctx, case["body"].as_array().unwrap()));
     });
+    if let Err(e) = &r {
+        let msg = e.downcast_ref::<String>().cloned().or_else(|| e.downcast_ref::<&str>().map(ToString::to_string)).unwrap_or_default();
+        eprintln!("panic: {}", msg.chars().take(300).collect::<String>());
+    }
     println!("{}", if r.is_ok() { "done" } else { "panic" });
 }
 
@@ -165,6 +189,9 @@ pub fn run(case: &Value) -> Value {
     for d in ["state", "tmp", "manifest", "bin", "abs"] {
         std::fs::create_dir_all(root.join(d)).unwrap();
     }
+    // the crate under test: root/manifest, or a member of a Cargo workspace root/wsroot
+    let manifest = if case["workspace"].is_array() { root.join("wsroot").join("crate") } else { root.join("manifest") };
+    std::fs::create_dir_all(&manifest).unwrap();
     let exe_dir = std::env::current_exe().unwrap().parent().unwrap().to_path_buf();
     for p in ["docker", "pack"] {
         std::os::unix::fs::symlink(exe_dir.join("standin"), root.join("bin").join(p)).unwrap();
@@ -191,13 +218,38 @@ pub fn run(case: &Value) -> Value {
     patch(&mut case, &abs_prefix, &mut fixtures);
     let mut fixture_dirs = vec![];
     for f in &fixtures {
-        let p = if Path::new(f).is_absolute() { PathBuf::from(f) } else { root.join("manifest").join(f) };
+        let p = if Path::new(f).is_absolute() { PathBuf::from(f) } else { manifest.join(f) };
         if case["no_fixture"] != true {
             std::fs::create_dir_all(p.join("sub")).unwrap();
             std::fs::write(p.join("app.txt"), b"app").unwrap();
             std::fs::write(p.join("sub").join("inner.txt"), b"inner").unwrap();
+            let _ = std::os::unix::fs::symlink("app.txt", p.join("link.txt"));
         }
         fixture_dirs.push(p);
+    }
+    // a Cargo workspace around the crate under test (root/manifest) with composite buildpacks (nothing to compile):
+    // [{"dir": relative to the workspace root (the crate is "crate"), "id": .., "deps": [ids]}]
+    if let Some(ws) = case["workspace"].as_array() {
+        let wsroot = root.join("wsroot");
+        std::fs::write(wsroot.join("Cargo.toml"), "[workspace]\nmembers = [\"crate\"]\nresolver = \"2\"\n").unwrap();
+        std::fs::create_dir_all(manifest.join("src")).unwrap();
+        std::fs::write(manifest.join("Cargo.toml"), "[package]\nname = \"crate_under_test\"\nversion = \"0.0.0\"\nedition = \"2021\"\n").unwrap();
+        std::fs::write(manifest.join("src").join("lib.rs"), "").unwrap();
+        for bp in ws {
+            let d = wsroot.join(string_of(&bp["dir"]));
+            std::fs::create_dir_all(&d).unwrap();
+            let id = string_of(&bp["id"]);
+            std::fs::write(
+                d.join("buildpack.toml"),
+                format!("api = \"0.10\"\n\n[buildpack]\nid = \"{id}\"\nversion = \"0.0.1\"\n\n[[order]]\n[[order.group]]\nid = \"x/y\"\nversion = \"1.0.0\"\n"),
+            )
+            .unwrap();
+            let mut p = format!("[buildpack]\nuri = \".\"\n");
+            for dep in bp["deps"].as_array().unwrap() {
+                p.push_str(&format!("\n[[dependencies]]\nuri = \"libcnb:{}\"\n", string_of(dep)));
+            }
+            std::fs::write(d.join("package.toml"), p).unwrap();
+        }
     }
     std::fs::write(root.join("state").join("plan.json"), serde_json::to_string(&json!({"fail": case["fail"], "noise": case["noise"]})).unwrap()).unwrap();
     std::fs::write(root.join("case.json"), serde_json::to_string(&case).unwrap()).unwrap();
@@ -208,10 +260,14 @@ pub fn run(case: &Value) -> Value {
     if let Ok(p) = std::env::var("LLVM_PROFILE_FILE") {
         child.env("LLVM_PROFILE_FILE", p);
     }
+    // libcnb-test finds the workspace root with `$CARGO locate-project` (cargo sets CARGO for the tests it runs)
+    if let Ok(c) = std::env::var("VERIF_CARGO") {
+        child.env("CARGO", c).env("CARGO_HOME", root.join("state").join("cargo-home")).env("CARGO_NET_OFFLINE", "true");
+    }
     let out = child
         .env("PATH", root.join("bin"))
         .env("TMPDIR", root.join("tmp"))
-        .env("CARGO_MANIFEST_DIR", root.join("manifest"))
+        .env("CARGO_MANIFEST_DIR", &manifest)
         .env("VERIF_LT_STATE", root.join("state"))
         .output()
         .unwrap();
@@ -239,7 +295,7 @@ pub fn run(case: &Value) -> Value {
         .collect();
     json!({
         "id": case["id"], "status": status, "log": log, "leftover": leftover, "fixtures": fixture_after,
-        "manifest_dir": root.join("manifest").display().to_string(), "tmp_dir": root.join("tmp").display().to_string(),
+        "manifest_dir": manifest.display().to_string(), "tmp_dir": root.join("tmp").display().to_string(),
         "stderr": String::from_utf8_lossy(&out.stderr).chars().take(400).collect::<String>(),
     })
 }
